@@ -276,8 +276,8 @@ def c01(tier, seed):
             return [ALL_MODES[i % 6] + [{}], ALL_MODES[(i + 3) % 6] + [{}]]
         return [m + [{}] for m in ALL_MODES]
 
-    jobs = _run_jobs_for(seed + 100, 10 if quick else 32, "c01g", runs_of, modes_of, match_async=True,
-                         fam=("slow_side_node", "slow_producer", "same_generation_pair", "fast_node"))  # position 3 compiles GENERATIONAL in the quick tier
+    jobs = _run_jobs_for(seed + 100, 11 if quick else 33, "c01g", runs_of, modes_of, match_async=True,
+                         fam=("slow_side_node", "slow_producer", "same_generation_pair", "fast_node", "train_tie"))  # position 3 compiles GENERATIONAL in the quick tier
     # the async side of the pair: the same worker validates nothing about the threaded runtime; that is C02-C04's business. Here
     # the two probe logs are compared step by step (clauses MatchesAsync_*) and the compiled log must be a run of RexRun.
     results, run_items, vs, metas = _run_campaign(rep, jobs, {"C01"})
@@ -458,7 +458,10 @@ def c06_compiled(rep, tier, seed):
         # every stacked episode is rolled out over the whole compiled horizon (episodes have unequal lengths: the shorter ones must stay masked)
         return [dict(eps=0, history=["rollout:99"], jit=True), dict(eps=1, history=["rollout:99"], jit=True), dict(eps=2, history=["rollout:99"], jit=True),
                 dict(eps=1, history=["reset", "step", "stepo", "step", "stepo"], jit=True), dict(eps=2, history=["gymfull"], jit=True),
-                dict(eps=0, history=["run", "run"], jit=False)]
+                dict(eps=0, history=["run", "run"], jit=False),
+                # out-of-range episode indices are clipped by init(): the LAST (first) episode's schedule is what executes, mask and all
+                # (seeded change C06-g gathered the schedule before clipping: fill values, every slot runs)
+                dict(eps=-1, eps_arg=99, history=["run", "run", "run"], jit=True), dict(eps=0, eps_arg=-3, history=["reset", "step"], jit=True)]
 
     def modes_of(i):
         # the last mode of every job compiles with Graph(skip=[one non-supervisor node]): that node's step must never execute
